@@ -113,6 +113,9 @@ func runIso(sc IsoScenario, prefix []int, only int) *isoResult {
 		// real mutexes must never block under the cooperative scheduler: instrumented lockers
 		mon := InstallLockMonitor(s, w.LockSlot())
 		defer mon.Uninstall()
+		for _, extra := range w.ExtraLockSlots() {
+			defer InstallLockMonitor(s, extra).Uninstall()
+		}
 	}
 	sessions := make([]*Session, len(sc.Threads))
 	for ti, ops := range sc.Threads {
